@@ -89,6 +89,13 @@ def norm_guard(fi, expr, pol):
     comparisons to ``a < b`` (possibly negated, operands possibly swapped)."""
     while isinstance(expr, ast.UnaryOp) and isinstance(expr.op, ast.Not):
         expr, pol = expr.operand, not pol
+    if isinstance(expr, ast.Name) and fi.assigned_names().get(expr.id) == 1 and \
+            expr.id not in fi.params:
+        # a local bound exactly once to the result of a call stands for that call
+        for n in walk_own(fi.node):
+            if isinstance(n, ast.Assign) and len(n.targets) == 1 and isinstance(n.targets[0], ast.Name) \
+                    and n.targets[0].id == expr.id and isinstance(n.value, ast.Call):
+                return fi.canon(n.value), pol
     if isinstance(expr, ast.Compare) and len(expr.ops) == 1:
         op = expr.ops[0]
         l, r = fi.canon(expr.left), fi.canon(expr.comparators[0])
